@@ -86,6 +86,8 @@ def job(spec):
             for method in ("mean", "median"):
                 ev(dict(base, method=method, api="stats.downsample_1d"), lambda: stats.downsample_1d(arr, f, method=method),
                    reduced_if_int=(method == "mean"))
+            if case.get("big"):
+                continue                       # the large case goes through the public entry point only (its trace carries 2^18 values per event)
             ev(dict(base, api="kernels.downsample_1d_mean"), lambda: kernels.downsample_1d_mean(arr, f))
             ev(dict(base, api="kernels.downsample_1d_mean.py_func"), lambda: kernels.downsample_1d_mean.py_func(arr, f))
             ev(dict(base, api="kernels.downsample_1d_mean_parallel"), lambda: kernels.downsample_1d_mean_parallel(arr, f))
@@ -152,6 +154,9 @@ def run(v) -> None:
             pairs = [(f1, f2) for f1 in range(1, d1 + 1) for f2 in range(1, d2 + 1)]
             for (f1, f2) in (rng.sample(pairs, min(4, len(pairs))) if quick else pairs):
                 cases.append({"kind": "dec2d", "dt": dt, "d1": d1, "d2": d2, "f1": f1, "f2": f2})
+    # at scale: a series longer than any internal blocking threshold (2^18 + 5 samples), mean and median decimation by 3 and 4
+    for dt, f in ([("u1", 3)] if quick else [("u1", 3), ("f4", 4), ("f4", 3)]):
+        cases.append({"kind": "dec1d", "dt": dt, "n": 2 ** 18 + 5, "f": f, "big": True})
     specs = [{"id": i, "seed": seed() * 41 + i, "cases": cases[i::14]} for i in range(14)]
     evs = [e for r in pool.pmap(job, specs, workers=14) for e in r]
     traces = [{"hdr": {}, "ev": [{k: e[k] for k in ("f", "method", "x", "w", "f1", "f2", "d1", "d2", "A", "q", "tol", "reduced", "outq", "outcome")}
